@@ -44,6 +44,11 @@ impl U256 {
     }
 
     pub fn checked_shl(&self, other: &u64) -> Option<U256> {
+        // Shifting a non-zero value by 256 or more always drops bits. Do not materialize the
+        // (potentially enormous) intermediate big integer.
+        if *other >= 256 {
+            return self.is_zero().then(|| self.clone());
+        }
         let r = (&self.0).shl(other);
         (r.bits() <= 256).then_some(Self(r))
     }
